@@ -55,6 +55,10 @@ def load_catalogue():
                         'also': allp[1:], 'rule': '-',
                         'patch': str(d / 'patch.diff'), 'suite': 'BENIGN',
                         'expect': 'silent',
+                        # a refactoring into an idiom no rule has a
+                        # recogniser for: "undecided" (exit 2) is the
+                        # accepted answer, a VIOLATION never is
+                        'allow_undecided': (d / 'undecided.txt').exists(),
                         'source': 'independent sub-agent (refactoring)',
                         'what': 'behaviour-preserving refactoring'})
     return out
@@ -190,7 +194,8 @@ def run_catalogue(props, jobs=16, only=None):
                     continue
                 bq = base.get(q) or {'keys': set()}
                 nq = sorted(set(rq['keys']) - set(bq['keys']))
-                if nq or rq['status'] == 2:
+                if nq or (rq['status'] == 2 and not v.get(
+                        'allow_undecided')):
                     also_bad.append((q, sorted({k.split('|')[0]
                                                 for k in nq})
                                      or rq['error']))
@@ -213,7 +218,7 @@ def run_catalogue(props, jobs=16, only=None):
                         vid, r['error'] or 'silent'))
         elif expect == 'silent':
             s['benign_total'] += 1
-            if not fired and r['status'] != 2:
+            if not fired and (r['status'] != 2 or v.get('allow_undecided')):
                 s['benign_silent'] += 1
             else:
                 s['failures'].append('%s: benign twin raised %s' % (
